@@ -8,9 +8,11 @@ Open Scope Z_scope.
 Definition str := list Z.
 Definition COMMA : Z := 44.
 Definition SPACE : Z := 32.
-(* str.strip() whitespace (the code points the harness uses are a subset) *)
+(* str.strip() whitespace: every code point for which str.isspace() holds (compared with the running Python over the
+   whole code space by the NWsSet correspondence case) *)
 Definition is_ws (c : Z) : bool :=
-  ((9 <=? c) && (c <=? 13)) || ((28 <=? c) && (c <=? 32)) || (c =? 133) || (c =? 160).
+  ((9 <=? c) && (c <=? 13)) || ((28 <=? c) && (c <=? 32)) || (c =? 133) || (c =? 160)
+  || (c =? 5760) || ((8192 <=? c) && (c <=? 8202)) || (c =? 8232) || (c =? 8233) || (c =? 8239) || (c =? 8287) || (c =? 12288).
 
 (* s.split(",") *)
 Fixpoint split_aux (cur : str) (s : str) : list str :=
